@@ -998,8 +998,30 @@ pub fn gen_ops(rng: &mut Rng, len: usize, cfg: GenCfg) -> Vec<Op> {
         let r = rng.below(100);
         let t = gen_ty(rng);
         if hot && r < 30 {
-            // an edit, (usually) its notification, (usually) a pass, then a look at the cache
-            let w = gen_write(rng, threads_ok, spicy);
+            // an edit, (usually) its notification, (usually) a pass, then a look at the cache;
+            // mostly of a file some loaded asset was made from
+            let w = if !loaded.is_empty() && rng.chance(4, 5) {
+                let (t, id) = rng.pick(&loaded).clone();
+                match t {
+                    Ty::N | Ty::NS => {
+                        let idx = NODE_IDS.iter().position(|x| *x == id).unwrap_or(0);
+                        Op::Write(id, "n".into(), gen_script(rng, idx, threads_ok, spicy))
+                    }
+                    Ty::DI | Ty::RI => {
+                        // a file inside the directory
+                        let f = if id.is_empty() { "zz".to_string() } else { format!("{id}.zz") };
+                        Op::Write(f, "x".into(), Content::Bytes(b"1".to_vec()))
+                    }
+                    Ty::V | Ty::X => gen_write(rng, threads_ok, spicy),
+                    _ => {
+                        let ext = rng.pick(exts_of(t)).to_string();
+                        let c = if rng.chance(5, 6) { format!("{}", rng.below(100)).into_bytes() } else { gen_int_content(rng) };
+                        Op::Write(id, ext, Content::Bytes(c))
+                    }
+                }
+            } else {
+                gen_write(rng, threads_ok, spicy)
+            };
             let (id, ext) = match &w {
                 Op::Write(id, ext, _) => (id.clone(), ext.clone()),
                 _ => unreachable!(),
@@ -1035,13 +1057,70 @@ pub fn gen_ops(rng: &mut Rng, len: usize, cfg: GenCfg) -> Vec<Op> {
             observe_some(rng, &mut ops, &loaded, watchers);
             continue;
         }
-        if hot && !mutable && r < 36 && !loaded.is_empty() && watchers < 4 {
+        if hot && r >= 30 && r < 34 {
+            // get_or_insert on a key of a reloadable type whose file exists, possibly after the same
+            // key was loaded / load_owned / removed, followed by an edit of that file and a pass
+            let t = *rng.pick(&[Ty::I, Ty::I, Ty::S, Ty::V]);
+            let id = if t == Ty::V { "a".to_string() } else { rng.pick(FILE_IDS).to_string() };
+            match rng.below(4) {
+                0 if t != Ty::V => ops.push(Op::Load(t, id.clone())),
+                1 if t != Ty::V => ops.push(Op::LoadOwned(t, id.clone())),
+                _ => {}
+            }
+            if mutable {
+                match rng.below(4) {
+                    0 => ops.push(Op::Remove(t, id.clone())),
+                    1 => ops.push(Op::Take(t, id.clone())),
+                    2 if rng.chance(1, 3) => ops.push(Op::Clear),
+                    _ => {}
+                }
+            }
+            ops.push(Op::GetOrInsert(t, id.clone(), 90 + rng.below(9) as i64));
+            if !loaded.contains(&(t, id.clone())) && loaded.len() < 8 {
+                loaded.push((t, id.clone()));
+            }
+            ops.push(Op::Write(id.clone(), "x".into(), Content::Bytes(format!("{}", rng.below(50)).into_bytes())));
+            ops.push(notify_for(rng, &id, "x", false));
+            ops.push(Op::HotReload);
+            observe_some(rng, &mut ops, &loaded, watchers);
+            continue;
+        }
+        if hot && r >= 34 && r < 38 {
+            // a batch that rewires one node to depend on another node edited in the same batch
+            let i = rng.below((NODE_IDS.len() - 1) as u64) as usize;
+            let j = i + 1 + rng.below((NODE_IDS.len() - 1 - i) as u64) as usize;
+            let (ni, nj) = (NODE_IDS[i].to_string(), NODE_IDS[j].to_string());
+            for n in [&ni, &nj] {
+                if !loaded.contains(&(Ty::N, n.clone())) {
+                    ops.push(Op::Load(Ty::N, n.clone()));
+                    if loaded.len() < 8 {
+                        loaded.push((Ty::N, n.clone()));
+                    }
+                }
+            }
+            ops.push(Op::Write(
+                ni.clone(),
+                "n".into(),
+                Content::Script(vec![Line::Val(10 + rng.below(5) as i64), Line::Load(Ty::N, nj.clone())]),
+            ));
+            ops.push(Op::Write(nj.clone(), "n".into(), Content::Script(vec![Line::Val(rng.below(9) as i64)])));
+            let mut es = vec![(true, ni.clone(), "n".to_string()), (true, nj.clone(), "n".to_string())];
+            if rng.chance(1, 2) {
+                es.reverse();
+            }
+            ops.push(Op::Notify(es));
+            ops.push(Op::HotReload);
+            ops.push(Op::GetCached(Ty::N, ni));
+            ops.push(Op::GetCached(Ty::N, nj));
+            continue;
+        }
+        if hot && !mutable && r >= 38 && r < 42 && !loaded.is_empty() && watchers < 4 {
             let (t, id) = rng.pick(&loaded).clone();
             ops.push(Op::Watch(watchers, t, id));
             watchers += 1;
             continue;
         }
-        if leaked && !enhanced && r < 38 && rng.chance(1, 8) {
+        if leaked && !enhanced && r >= 42 && r < 46 && rng.chance(1, 3) {
             ops.push(Op::Enhance);
             enhanced = true;
             continue;
@@ -1283,7 +1362,7 @@ pub fn run(a: &Args) {
             &a.out,
             &format!("sysdiff{s}"),
             "From AM Require Import Ref.Load Ref.Sys Corr.SysCheck.\nFrom Coq Require Import ZArith.",
-            &[("sys_cases", "sys_check")],
+            &[("sys_cases", "sys_code")],
         );
     }
     if !ctx.ident.violations.is_empty() {
@@ -1301,7 +1380,7 @@ pub fn run(a: &Args) {
     std::fs::write(
         format!("{}/sysdiff.summary.json", a.out),
         format!(
-            "{{\"engine\": \"sysdiff\", \"evaluations\": {}, \"distinct_nontrivial\": {}, \"samples\": [{}], \"distribution\": {{\"frontends\": {}, \"ops\": {}, \"sequence_length_buckets\": {}, \"outcomes\": {}, \"reload_passes_that_visited_assets\": {}}}}}",
+            "{{\"engine\": \"sysdiff\", \"code_classes\": {{\"1\": \"model-disagreement\", \"2\": \"late-bound-stale\", \"3\": \"non-reloadable-rewritten\", \"4\": \"stale-after-pass\"}}, \"evaluations\": {}, \"distinct_nontrivial\": {}, \"samples\": [{}], \"distribution\": {{\"frontends\": {}, \"ops\": {}, \"sequence_length_buckets\": {}, \"outcomes\": {}, \"reload_passes_that_visited_assets\": {}}}}}",
             n_cases,
             distinct,
             samples.join(", "),
